@@ -1,8 +1,19 @@
+mod common;
+mod memops;
+mod modfam;
+
 fn main() {
-    let bytes = wat::parse_str("(module (func (export \"f\")))").unwrap();
-    let bytes: &'static [u8] = Box::leak(bytes.into_boxed_slice());
-    let mut m = wirm::Module::parse(bytes, true).unwrap();
-    let out = m.encode();
-    let mut v = wasmparser::Validator::new_with_features(wasmparser::WasmFeatures::all());
-    println!("{:?} {}", v.validate_all(&out).is_ok(), wasmprinter::print_bytes(&out).unwrap());
+    common::install_panic_hook();
+    let args: Vec<String> = std::env::args().collect();
+    if args.len() < 2 {
+        eprintln!("usage: conform <family> [args]");
+        std::process::exit(2);
+    }
+    match args[1].as_str() {
+        "module" => modfam::main(&args[2..]),
+        f => {
+            eprintln!("unknown family {}", f);
+            std::process::exit(2);
+        }
+    }
 }
